@@ -76,11 +76,11 @@ Theorem mask_spec : forall mode um i, N.testbit (mask mode um) i = N.testbit mod
 Proof. exact mask_spec_l. Qed.
 
 (* the resolution function computes exactly the declarative resolution relation *)
-Theorem walk_iff_resolves : forall ino st cs st', walk ino st cs = WOk st' <-> Resolves ino st cs st'.
+Theorem walk_iff_resolves : forall u ino st cs st', walk u ino st cs = WOk st' <-> Resolves u ino st cs st'.
 Proof. exact walk_iff_resolves_l. Qed.
 
 (* removing `.` and cancelling `name/..` does not change where a resolvable path leads *)
-Theorem path_normalisation : forall ino st cs st', walk ino st cs = WOk st' -> walk ino st (norm [] cs) = WOk st'.
+Theorem path_normalisation : forall u ino st cs st', walk u ino st cs = WOk st' -> walk u ino st (norm [] cs) = WOk st'.
 Proof. exact norm_sound_l. Qed.
 
 (* the normal form has no `.` component *)
@@ -137,10 +137,10 @@ Proof. exact ex_excl. Qed.
 Example ex_umask_nonvacuous : exists s' fd, k_stat ex0 p_new = (ex0, RErr ENOENT) /\ k_open ex0 p_new AWr fl_creat 438 = (s', RFd fd) /\ mask 438 (p_umask (k_cur ex0)) = 420%N.
 Proof. exact ex_umask. Qed.
 
-Example ex_norm_nonvacuous : exists st, walk (k_ino ex0) [] (comps p_dots) = WOk st /\ norm [] (comps p_dots) = [[100]; [104]]%N /\ top st = 7.
+Example ex_norm_nonvacuous : exists st, walk false (k_ino ex0) [] (comps p_dots) = WOk st /\ norm [] (comps p_dots) = [[100]; [104]]%N /\ top st = 7.
 Proof. exact ex_norm. Qed.
 
-Example norm_needs_resolvable : walk (k_ino ex0) [] [[102]; [46; 46]]%N = WErr ENOTDIR /\ walk (k_ino ex0) [] (norm [] [[102]; [46; 46]]%N) = WOk [].
+Example norm_needs_resolvable : walk false (k_ino ex0) [] [[102]; [46; 46]]%N = WErr ENOTDIR /\ walk false (k_ino ex0) [] (norm [] [[102]; [46; 46]]%N) = WOk [].
 Proof. exact ex_norm_needs_hyp. Qed.
 
 Example oracle_rejects_fd_leak : run_case (CSys ex_tree 18 [OOpen p_f ARd fl_none 0] (mkSysObs [RFd 4] (so_tree (model_obs ex_tree 18 [])) [[]; []; []]) (mkSysObs [RFd 3] (so_tree (model_obs ex_tree 18 [])) [[]; []; []])) = 2%N.
@@ -163,7 +163,7 @@ Theorem dup_emfile : forall s fd m cx e, fd_get (fds s) fd = Some e -> (m <= fd_
 Proof. exact dup_emfile_l. Qed.
 
 (* a fatal signal for the caller's own group kills the child that has the default action: nothing more of it runs, its waiting ancestors (which ignore the signal) are unchanged and the parent learns the signal at the child's exit *)
-Theorem group_kill_child_dies : forall s parent rest sig, k_skip s = None -> k_susp s = parent :: rest -> (sig < nsig)%N -> sig <> sigtstp -> mem_n sig (g_mask (p_sig (k_cur s))) = false -> get_disp (g_disp (p_sig (k_cur s))) sig = DDefault -> signal_ancestors (k_susp s) (snd (p_id (k_cur s))) sig = Some (k_susp s) -> let s1 := fst (k_kill s TGroup0 sig) in snd (k_kill s TGroup0 sig) = RSkip /\ (forall o, o <> OFork -> o <> OExit -> step s1 o = (s1, RSkip)) /\ fst (step s1 OExit) = mkK (k_ino s) (k_ofd s) parent rest None /\ snd (step s1 OExit) = RChild (CSignaled sig).
+Theorem group_kill_child_dies : forall s parent rest sig, k_skip s = None -> k_susp s = parent :: rest -> (sig < nsig)%N -> sig <> sigtstp -> mem_n sig (g_mask (p_sig (k_cur s))) = false -> get_disp (g_disp (p_sig (k_cur s))) sig = DDefault -> signal_ancestors (k_susp s) (snd (p_id (k_cur s))) sig = Some (k_susp s) -> let s1 := fst (k_kill s TGroup0 sig) in snd (k_kill s TGroup0 sig) = RSkip /\ (forall o, o <> OFork -> o <> OExit -> step s1 o = (s1, RSkip)) /\ fst (step s1 OExit) = mkK (k_ino s) (k_ofd s) parent rest None (k_unpriv s) /\ snd (step s1 OExit) = RChild (CSignaled sig).
 Proof. exact group_kill_child_dies_l. Qed.
 
 (* a waiting process that ignores the signal is not changed by a signal for its group *)
@@ -179,6 +179,22 @@ Proof. exact ex_pipe_emfile. Qed.
 
 Example ex_group_kill : snd (run ex0 [OSigaction 2 DIgnore; OFork; OSigaction 2 DDefault; OKill TGroup0 2; OGetcwd; OExit; OGetSigaction 2]) = [RDisp DDefault; RUnit; RDisp DIgnore; RSkip; RSkip; RChild (CSignaled 2); RDisp DIgnore].
 Proof. exact ex_group_kill. Qed.
+
+(* an unprivileged process cannot look anything up in a directory it may not search *)
+Theorem walk_needs_search : forall ino st c cs perm ents, nth_error ino (top st) = Some (IDir perm ents) -> may_x perm = false -> walk true ino st (c :: cs) = WErr EACCES.
+Proof. exact walk_needs_search_l. Qed.
+
+(* a privileged process is never refused by pathname resolution *)
+Theorem walk_privileged : forall ino cs st e, walk false ino st cs = WErr e -> e <> EACCES.
+Proof. exact walk_privileged_l. Qed.
+
+(* opening a file without the owner's read / write bit: EACCES, no effect *)
+Theorem open_existing_denied : forall s i a f perm data, k_unpriv s = true -> f_creat f && f_excl f = false -> f_dir f = false -> nth_error (k_ino s) i = Some (IReg perm data) -> (readable a && negb (may_r perm)) || (writable a && negb (may_w perm)) = true -> open_existing s i a f = (s, RErr EACCES).
+Proof. exact open_existing_denied_l. Qed.
+
+(* with the needed bits the open succeeds, privileged or not *)
+Theorem open_existing_allowed : forall s i a f perm data, f_creat f && f_excl f = false -> f_dir f = false -> nth_error (k_ino s) i = Some (IReg perm data) -> (readable a && negb (may_r perm)) || (writable a && negb (may_w perm)) = false -> exists s' fd, open_existing s i a f = (s', RFd fd).
+Proof. exact open_existing_allowed_l. Qed.
 
 Print Assumptions lowest_free_spec.
 Print Assumptions dup_lowest_free.
@@ -226,3 +242,7 @@ Print Assumptions signal_ancestors_ignored.
 Print Assumptions kill_neg_pid_not_leader.
 Print Assumptions ex_pipe_emfile.
 Print Assumptions ex_group_kill.
+Print Assumptions walk_needs_search.
+Print Assumptions walk_privileged.
+Print Assumptions open_existing_denied.
+Print Assumptions open_existing_allowed.
